@@ -334,6 +334,34 @@ def run(ctx):
                 ctx.disagree(st_term, sig, cols.tolist(), model.tolist(), 'term columns differ from the model rows')
 
 
+    # ---- gen_edge_knots itself, both dtypes: numerical -> (min, max); categorical -> (min - 1/2, max + 1/2)
+    rngk = ctx.subrng('gen_edge_knots')
+    kcases = []
+    for trial in range(12 if ctx.tier == 'quick' else 120):
+        cat = trial % 2 == 1
+        if cat:
+            base = rngk.choice([0, 1, -3, 7, 100])
+            data = np.array([float(base + rngk.randint(0, rngk.choice([1, 2, 5, 9]))) for _ in range(rngk.randint(1, 12))])
+        else:
+            a_ = rngk.choice([0.0, -2.5, 1e6, -1e-3])
+            data = np.array([a_ + rngk.randint(0, 1024) / 256.0 for _ in range(rngk.randint(1, 12))])
+        kcases.append((cat, data))
+    kouts = ctx.driver.run(['C03 knots %d %s %s' % (1 if cat else 0, common.q2s(common.f2q(d.min())), common.q2s(common.f2q(d.max()))) for cat, d in kcases])
+    for (cat, d), o in zip(kcases, kouts):
+        sigk = dict(dtype='categorical' if cat else 'numerical', data=d.tolist())
+        ctx.case(st_k, sigk, nontrivial=True)
+        want = [float(d.min()) - 0.5, float(d.max()) + 0.5] if cat else [float(d.min()), float(d.max())]
+        try:
+            got = [float(v) for v in gen_edge_knots(d, 'categorical' if cat else 'numerical', verbose=False)]
+        except Exception as e:  # noqa
+            got = '%s: %s' % (type(e).__name__, str(e)[:100])
+        mk = [float(q) for q in common.parse_vec(o)] if o != 'bad-op' else None
+        if got != want:
+            ctx.fail(st_k, dict(kind='gen_edge_knots', dtype=sigk['dtype']), sigk, observed=got, expected=want,
+                     oracle='edge knots of a feature: its range, widened by half a category on each side for a categorical feature')
+        elif mk != want:
+            ctx.disagree(st_k, sigk, got, mk, 'model edgeKnots differs from gen_edge_knots')
+
     # ---- default knots follow the data of every compile / fit (also of a re-compile, of a deep copy, of a refit)
     import copy
     from pygam import LinearGAM
